@@ -1229,10 +1229,10 @@ impl<'a> G<'a> {
                 binds.retain(|b| b.name != p);
                 p = "_".into();
             }
-            if matches!(ty, GTy::List(_) | GTy::Tree(_)) && binds.len() == 1 {
-                // gate (finding N12): a pattern with exactly one binder on a recursive scrutinee
-                // types the binder as the whole narrowed cell; add an unused second binder, or
-                // drop the binder
+            if matches!(ty, GTy::List(_) | GTy::Tree(_)) && binds.len() == 1 && !self.r.chance(1, 2) {
+                // N12 (a pattern with exactly one binder on a recursive scrutinee typed the binder
+                // as the whole narrowed cell) is repaired by cf8f770: the lone binder is kept half
+                // of the time; otherwise an unused second binder is added, or the binder dropped
                 if p.contains(WILD) {
                     let extra = self.var("u");
                     p = p.replacen(WILD, &extra, 1);
